@@ -7,6 +7,7 @@
   Strings are symbol indices (`SymbolIndex = u64`), integers are `Int` with the
   i64 range enforced where the code enforces it (`inI64`).
 -/
+set_option linter.unusedSimpArgs false
 namespace Biscuit
 
 inductive MapKey where
